@@ -36,6 +36,10 @@ def probe_run_methods() -> Tuple[List[str], Dict[str, List[Tuple[str, str]]], Li
         def expected_data_framework(cls) -> Any:
             return dict
 
+        @staticmethod
+        def is_available() -> bool:
+            return False  # never offered to framework discovery; only driven directly below
+
     class Fg:
         @classmethod
         def get_class_name(cls) -> str:
